@@ -308,13 +308,18 @@ func (mi *MutantInjector) mutantsOf(n *Node, b *blockchain.Block, gen *Validator
 	// maxHeightGenerated chosen so that the header contradicts the generator's most recent header on this chain
 	if tb := mi.M.Tree.ByID[string(tip.ID)]; tb != nil {
 		if last, ok := tb.BFT.LastHeaderOf(string(h.GeneratorAddress)); ok {
+			// (any value that hides the last header: zero, just below it, what the last header itself claimed - which
+			// may still cover older headers of the same generator)
+			var cands []uint32
 			for _, g := range []uint32{0, last.Height - 1, last.MaxHeightGenerated} {
 				cand := refmodel.BFTHeader{Height: h.Height, Generator: string(h.GeneratorAddress), MaxHeightGenerated: g, MaxHeightPrevoted: h.MaxHeightPrevoted}
 				if g != h.MaxHeightGenerated && g < h.Height && refmodel.Contradicting(last, cand) {
-					g := g
-					add("maxHeightGenerated-contradicting", gen, func(c *blockchain.Block) { c.Header.MaxHeightGenerated = g })
-					break
+					cands = append(cands, g)
 				}
+			}
+			if len(cands) > 0 {
+				g := cands[simkit.Int(t, "mmhgcontra", 0, len(cands)-1)]
+				add("maxHeightGenerated-contradicting", gen, func(c *blockchain.Block) { c.Header.MaxHeightGenerated = g })
 			}
 		}
 	}
